@@ -20,7 +20,7 @@ def shards(tier, seed):
     out = []
     k = 5 if tier == "quick" else 9
     for L in T.LETTERS:
-        out.append({"name": "constructors-" + L, "kind": "cons", "letter": L, "k": k, "after_history": L in "CF",
+        out.append({"name": "constructors-" + L, "kind": "cons", "letter": L, "k": k, "after_history": L in "CF", "before_history": L in "DG",
                     "pure": 12 if tier == "quick" else 40, "weight": 8})
     kp = 4 if tier == "quick" else 6
     for L in T.LETTERS:
@@ -88,6 +88,20 @@ def run(shard, ctx):
                     perfect_n = d in (0, 7) or ((not inc) and d == 5)
                     st, v = ctx.call(intervals.is_dissonant, a, b, inc)
                     ctx.check("consonance: dissonant = not consonant", st == "ok" and bool(v) == (not (perfect_n or imperfect)), dict(w, include_fourths=inc), not (perfect_n or imperfect), v)
+                if d == 5 or (pa + len(b)) % 7 == 0:
+                    for flag in (0, 1, None, ""):      # truthy / falsy flags that are not bools
+                        inc = bool(flag)
+                        perfect = d in (0, 7) or (inc and d == 5)
+                        st, v = ctx.call(intervals.is_consonant, a, b, flag)
+                        ctx.check("consonance: consonant = perfect or imperfect", st == "ok" and bool(v) == (perfect or imperfect),
+                                  dict(w, include_fourths=repr(flag)), perfect or imperfect, v, mechanism="flag-form:is_consonant")
+                        st, v = ctx.call(intervals.is_perfect_consonant, a, b, flag)
+                        ctx.check("consonance: perfect = {0,7} (+5 when fourths included)", st == "ok" and bool(v) == perfect,
+                                  dict(w, include_fourths=repr(flag)), perfect, v, mechanism="flag-form:is_perfect_consonant")
+                        perfect_n = d in (0, 7) or ((not inc) and d == 5)
+                        st, v = ctx.call(intervals.is_dissonant, a, b, flag)
+                        ctx.check("consonance: dissonant = not consonant", st == "ok" and bool(v) == (not (perfect_n or imperfect)),
+                                  dict(w, include_fourths=repr(flag)), not (perfect_n or imperfect), v, mechanism="flag-form:is_dissonant")
                 st, v = ctx.call(intervals.is_imperfect_consonant, a, b)
                 ctx.check("consonance: imperfect = {3,4,8,9}", st == "ok" and bool(v) == imperfect, w,
                           imperfect, v)
